@@ -463,7 +463,8 @@ package proxy
 //@   ensures result0 != nil && msgsOf(result0) != nil ==> forall k int :: { msgsOf(result0).ReplicationTasks[k] } 0 <= k && k < len(msgsOf(result0).ReplicationTasks) ==>
 //@              msgsOf(result0).ReplicationTasks[k] != nil && (msgsOf(result0).ReplicationTasks[k].RawTaskInfo != nil ==> msgsOf(result0).ReplicationTasks[k].RawTaskInfo.TaskId < MaxID && msgsOf(result0).ReplicationTasks[k].RawTaskInfo.TaskId > MinInt64)
 //@   ensures r.wmOnly == old(r.wmOnly) + ite(result1 == nil && result0 != nil && typeis(result0.Attributes, "*adminservice.StreamWorkflowReplicationMessagesResponse_Messages") && msgsOf(result0) != nil && len(msgsOf(result0).ReplicationTasks) == 0, 1, 0)
-//@   assigns r.wmOnly
+//@   ensures r.msgBatches == old(r.msgBatches) + ite(result1 == nil && result0 != nil && typeis(result0.Attributes, "*adminservice.StreamWorkflowReplicationMessagesResponse_Messages") && msgsOf(result0) != nil, 1, 0)
+//@   assigns r.wmOnly, r.msgBatches
 //@ extern quiet (ShardManager).GetRemoteSendChansByCluster
 //@ extern quiet (ShardManager).GetRemoteShardsForPeer
 //@ extern proto.Clone@(*proxyStreamReceiver).recvReplicationMessages(m)
@@ -492,9 +493,16 @@ package proxy
 // complete': EVERY watermark-only batch is broadcast to the targets - also one that repeats the previous watermark,
 // because the broadcast is non-blocking and a repeat is what repairs a drop at a full queue.
 //@ ghost proxyStreamReceiver.wmOnly int
+// msgBatches: number of replication batches (with or without tasks) received on this stream (ghost)
+//@ ghost proxyStreamReceiver.msgBatches int
 //@ contract (*proxyStreamReceiver).recvReplicationMessages
 //@   props C02 C01 C04 C03
-//@   counts GetRemoteSendChansByCluster
+//@   counts GetRemoteSendChansByCluster, lastExclusiveHighOriginal
+// the clamp bound of sendAck follows the source: EVERY batch raises it to the batch's high watermark, and does so
+// before the batch is handed to anybody (otherwise acknowledgements stay clamped below the source's watermark)
+//@   writepre lastExclusiveHighOriginal: @bound_is_batch_high: $value == attr.Messages.ExclusiveHighWatermark
+//@   loop 1 invariant @bound_follows_every_batch: calls(lastExclusiveHighOriginal) == r.msgBatches - old(r.msgBatches)
+//@   callpre DeliverMessagesToShardOwner: @bound_raised_first: calls(lastExclusiveHighOriginal) == r.msgBatches - old(r.msgBatches)
 // each local target gets its OWN copy of the watermark message: every sender rewrites the watermark of the message it
 // is handed into its own id space, so a shared object would carry one sender's proxy id to the next
 //@   sendpre sendChan: @private_copy: $value.Resp != msg.Resp && $value.Resp != nil && fresh($value.Resp)
